@@ -16,7 +16,8 @@
 //     total lands exactly on the limit, and the statement says nothing about the flag;
 //   - after a removal the instance's request-id memory is gone (the code forgets it; the statement speaks of ids "already
 //     processed for that instance", and the workloads here never reuse ids across a removal anyway);
-//   - request id <= 0 is not subject to (D) (the removal path uses -1).
+//   - request id 0 is "no id" (the API field is omitempty) and not subject to (D); every other id, negative ones included, is
+//     (the removal path passes -1 together with a negative count and is a removal, not a report).
 package c08
 
 import (
@@ -30,6 +31,7 @@ import (
 type ist struct {
 	Count  int32
 	LastID int64
+	HasID  bool // an id has been processed for the instance (LastID is meaningful)
 }
 
 // Model is the sequential reference state of one max-in-flight global flow control.
@@ -65,7 +67,7 @@ func (m *Model) key() string {
 	var b strings.Builder
 	fmt.Fprintf(&b, "%d", m.Max)
 	for _, k := range ks {
-		fmt.Fprintf(&b, "|%s:%d:%d", k, m.Inst[k].Count, m.Inst[k].LastID)
+		fmt.Fprintf(&b, "|%s:%d:%d:%v", k, m.Inst[k].Count, m.Inst[k].LastID, m.Inst[k].HasID)
 	}
 	return b.String()
 }
@@ -98,7 +100,7 @@ func (m *Model) Step(in In, out Out) []*Model {
 		return []*Model{n}
 	}
 	cur, exists := m.Inst[in.Instance]
-	if in.ID > 0 && exists && in.ID <= cur.LastID { // (D)
+	if in.ID != 0 && exists && cur.HasID && in.ID <= cur.LastID { // (D)
 		if !out.TooOld {
 			return nil
 		}
@@ -109,8 +111,8 @@ func (m *Model) Step(in In, out Out) []*Model {
 	}
 	n := m.clone()
 	ns := cur
-	if in.ID > 0 {
-		ns.LastID = in.ID
+	if in.ID != 0 {
+		ns.LastID, ns.HasID = in.ID, true
 	}
 	if in.Count <= cur.Count { // (C) always applied
 		if out.Latest != in.Count {
